@@ -44,6 +44,14 @@ SPECS = [
 GEOMS = ['box centre', 'everything', 'edge hugging', 'multi', 'point']
 
 
+def _shared_parts(polys):
+    a, b = polys[len(polys) // 3], polys[-1]
+    pa, pb = a.representative_point(), b.representative_point()
+    r = min(a.bounds[2] - a.bounds[0], a.bounds[3] - a.bounds[1]) / 50
+    return shapely.GeometryCollection([shapely.Point(pa.x, pa.y).buffer(r), shapely.Point(pa.x + r / 4, pa.y).buffer(r / 2),
+                                       shapely.Point(pb.x, pb.y), shapely.Point(pb.x, pb.y + r / 10), a.centroid.buffer(r / 3)])
+
+
 def geometries(ds):
     x0, y0, x1, y1 = ds.ems.bounds
     cx, cy = (x0 + x1) / 2, (y0 + y1) / 2
@@ -55,6 +63,8 @@ def geometries(ds):
         'edge hugging': shapely.box(x0 - 1, y0 - 1, x0 + w / 8, y1 + 1),
         'multi': shapely.MultiPolygon([shapely.box(x0, y0, x0 + w / 5, y0 + h / 5), shapely.box(x1 - w / 5, y1 - h / 5, x1, y1)]),
         'point': shapely.Point(polys[len(polys) // 2].representative_point()),
+        # several parts inside / touching the same cells (a cell hit by two parts must still be selected once)
+        'parts sharing cells': _shared_parts(polys),
     }
 
 
@@ -70,6 +80,8 @@ def enrich(ds):
     ds['i_fill'] = xarray.DataArray(base.copy(), dims=fdims, attrs={'_FillValue': numpy.int32(-99), 'long_name': 'integer with _FillValue'})
     ds['i_missing'] = xarray.DataArray(base.astype('int64'), dims=fdims, attrs={'missing_value': numpy.int64(-1)})
     ds['i_zero_fill'] = xarray.DataArray(base.astype('int32') + 1, dims=fdims, attrs={'_FillValue': numpy.int32(0), 'long_name': 'count, 0 = no data'})
+    # a short whose missing value is stored as a double the short type cannot hold (legacy 1e35 sentinels)
+    ds['i_wide_missing'] = xarray.DataArray(base.astype('int16'), dims=fdims, attrs={'missing_value': numpy.float64(1e35)})
     ds['f_last'] = xarray.DataArray((base * 0.5).reshape(shape + [1]).repeat(3, axis=-1) + numpy.arange(3) * 1000.0, dims=fdims + ['band'],
                                     attrs={'units': 'u'})
     ds['f_first'] = ds['f_last'].transpose('band', *fdims) + 0.25
